@@ -150,7 +150,10 @@ OpEnd(w, res) ==
     LET o == CurOp(w) IN
     Park([w EXCEPT !.loc[w.t].ip = @ + 1], "idle", "op.end", [op |-> o.op, res |-> res])
 
-MetricsView(w) == w.m
+MetricsView(w) ==                \* what get_metrics() shows of the modelled counters
+    [received |-> w.m.received, dropped |-> w.m.dropped, reduced |-> w.m.reduced,
+     effIssued |-> w.m.effIssued, mwExecuted |-> w.m.mwExecuted, notified |-> w.m.notified,
+     subNotified |-> w.m.subNotified, errors |-> w.m.errors]
 
 -----------------------------------------------------------------------------
 (* SenderChannel::send, channel.rs:54-107 -- one machine for the dispatch     *)
